@@ -78,7 +78,8 @@ class _Handler(http.server.BaseHTTPRequestHandler):
             self.close_connection = True
             return
         if kind in ("404", "500", "503", "403", "500_samelen",
-                    "404_samelen"):
+                    "404_samelen") or (kind and kind.isdigit()
+                                       and 400 <= int(kind) <= 599):
             body = b"injected error"
             if kind.endswith("_samelen"):
                 # worst case: the error document is exactly as long as the
